@@ -33,10 +33,10 @@ def proj(kind: str, start: datetime) -> Spec:
 
 def cells(tier: str) -> dict:
     out = {}
-    shifts = [("monthend", datetime(2025, 1, 20), 1), ("yearend", datetime(2025, 12, 8), 3), ("leapday", datetime(2028, 2, 14), 2),
+    shifts = [("monthend", datetime(2025, 1, 20), 1), ("yearend", datetime(2025, 12, 8), 3), ("isow1", datetime(2025, 12, 22), 2), ("jan1", datetime(2027, 1, 1), 1), ("leapday", datetime(2028, 2, 14), 2),
               ("w53", datetime(2026, 12, 14), 2), ("years", datetime(2025, 1, 6), 157)]
     if tier == "quick":
-        shifts = shifts[:4]
+        shifts = shifts[:5]
 
     def add(name, kind, start, k, rg_f):
         def f():
